@@ -178,6 +178,11 @@ def handleParse (j : Json) : R Json := do
   | some Json.null => pure ()
   | some implJ =>
     let impl ← listOf ruleOfJson implJ
+    -- accepted although a SUPERIORS list in the text repeats a name?
+    let supOk := files.all fun text => match tokenise text with
+      | .ok toks => supListsDistinct toks
+      | .error _ => true
+    spec := spec ++ [("sup_lists_distinct", toJson supOk)]
     spec := spec ++ [("rules_ok", toJson (rulesOk cfg impl)),
                      ("names_distinct", toJson (namesDistinct impl)),
                      ("sup_closed", toJson (supClosed impl)),
